@@ -906,3 +906,14 @@ def run(ck):
     pdec = common.program(ck, ("liblzma",), files=("/lz/lz_decoder.c", "/lzma/lzma_decoder.c"))
     C03.check_dict_siblings(ck, pdec)
     C03.check_dict_fresh(ck, pdec, rule="C01-DICTFRESH")
+    # the Index that the encoder writes has to be accepted by the decoder however the output buffer was sliced: its
+    # running CRC32 covers exactly the bytes before the CRC32 field (C06-CRC), and a re-used encoder starts from what
+    # its init function stores (READFIRST/INITCONS, shared with C06)
+    from . import C06, reinit
+    pall = common.program(ck, ("liblzma",))
+    C06.check_crc(ck, pall)
+    ck.rule("C01-READFIRST", "encoders: what the coding function can read before storing to it is stored by the init function on every path returning LZMA_OK")
+    reinit.check_read_first(ck, pall, "C01-READFIRST", files={"lzma_encoder.c", "lzma2_encoder.c", "lz_encoder.c", "delta_common.c",
+                                                             "simple_coder.c", "alone_encoder.c", "stream_encoder.c",
+                                                             "block_encoder.c", "index_encoder.c", "microlzma_encoder.c"})
+    ck.floor("C01-READFIRST", 20)
